@@ -27,7 +27,7 @@ RULE = ('cases = (operator form, input variant in {rectangular, ragged, with-mut
         'cells, addfield/addcolumn insertion indices, joins with missing=). Non-trivial: the source has >= 2 data rows and the operator '
         'delivered >= 2 rows. Distinct = SHA-1 of the case.')
 ASSUMPTIONS = ['mutable cell types generated are list and dict', 'the guard self-test fires at the start of every run, otherwise the run is inconclusive']
-REQUIRED = ['guard-selftest', 'entries-judged', 'rows-in-yield-ledger', 'partial-iterations', 'ragged-inputs', 'mutable-cells', 'guarded-arguments', 'c12-argument-forms']
+REQUIRED = ['guard-selftest', 'entries-judged', 'rows-in-yield-ledger', 'partial-iterations', 'ragged-inputs', 'mutable-cells', 'guarded-arguments', 'c12-argument-forms', 'c14-argument-forms']
 
 MUT = [[1, 2], {'p': 1}, [], {'p': 1, 'q': [2]}, [[3]], {'q': 2}]
 
@@ -153,6 +153,16 @@ def cases(ctx):
         rng = staticmethod(lambda *a: ctx.rng('c12-forms', *a))
     for c in c12.cases(_Ctx()):
         yield {'op': 'c12:' + c['form'], 'c12case': c}
+    # ... and every argument form of the reshape / unpack / regex operators of C14
+    from petlmon.checks import c14
+
+    class _Ctx14(object):
+        quick = ctx.quick
+        pick = staticmethod(lambda q, t: ctx.pick(q // 12, t // 12))
+        rng = staticmethod(lambda *a: ctx.rng('c14-forms', *a))
+    for c in c14.cases(_Ctx14()):
+        if 'table' in c:
+            yield {'op': 'c14:' + c['kind'], 'c14case': c}
 
 
 def setup(ctx):
@@ -191,8 +201,14 @@ def _input(variant, n=4):
 
 
 def _judge_c12(case, ctx):
-    from petlmon.checks import c12
-    c = case['c12case']
+    if 'c14case' in case:
+        from petlmon.checks import c14 as c12
+        c = case['c14case']
+        ctx.seen('c14-argument-forms')
+    else:
+        from petlmon.checks import c12
+        c = case['c12case']
+        ctx.seen('c12-argument-forms')
     del probes.GUARD_LOG[:]
     before = util.canon(c.get('table', c.get('tables')))
     c12.WRAP[0] = probes.guard
@@ -206,7 +222,6 @@ def _judge_c12(case, ctx):
     finally:
         c12.WRAP[0] = lambda t: t
     ctx.seen('entries-judged')
-    ctx.seen('c12-argument-forms')
     if c.get('table') and len(c['table']) > 2:
         ctx.mark_nontrivial()
     out = []
@@ -220,7 +235,7 @@ def _judge_c12(case, ctx):
 
 
 def judge(case, ctx):
-    if 'c12case' in case:
+    if 'c12case' in case or 'c14case' in case:
         return _judge_c12(case, ctx)
     name, variant, stop = case['op'], case['variant'], case['stop']
     if name in EXTRA:
